@@ -321,7 +321,7 @@ def _week53(names, st):
 
 def gen_project(R, bvmods, today, *, eol_choices=("\n",), filler="plain", legacy=False, n_files=None,
                 max_patterns=4, vp=None, state=None, shared_line_p=0.35, cfg_fmt=None, globs=True, aliases=True,
-                allow_partial=True, commit_cfg=None, bom_p=0.0, repeat_p=0.3):
+                allow_partial=True, commit_cfg=None, bom_p=0.0, repeat_p=0.3, repeat_in_mixed=False):
     """Generate one project. Returns (Project, None) or (None, discard_reason)."""
     proj = Project()
     proj.legacy = legacy
@@ -460,7 +460,7 @@ def gen_project(R, bvmods, today, *, eol_choices=("\n",), filler="plain", legacy
         R.shuffle(pending)
         # a pattern may occur on several lines of a file (every such line is rewritten); extras get own lines
         extras = []
-        if eol_mode != "mixed" and repeat_p and R.random() < repeat_p:
+        if (eol_mode != "mixed" or repeat_in_mixed) and repeat_p and R.random() < repeat_p:
             extras = [R.choice(pats) for _ in range(R.randint(1, 2))]
         n_pre = R.randint(0, 4)
         lines = [[(fill(R), None)] for _ in range(n_pre)]
@@ -575,6 +575,17 @@ def _pep_suffix(pl):
 
 def _unesc(s):
     return s.replace("\\[", "[").replace("\\]", "]")
+
+
+def in_chunk_after_same_pattern(proj, pl):
+    """Mixed line endings: bumpver splits a file at ONE separator kind (CRLF if present, else CR, else LF), so several
+    physical lines can form one of its 'lines'. True if `pl` lies in such a chunk behind an earlier occurrence of the
+    same pattern (of which only the first is rewritten)."""
+    text = proj.files[pl.file]
+    sep = "\r\n" if "\r\n" in text else ("\r" if "\r" in text else "\n")
+    start = text.rfind(sep, 0, pl.start)
+    start = 0 if start < 0 else start + len(sep)
+    return any(q is not pl and q.file == pl.file and q.raw == pl.raw and start <= q.start < pl.start for q in proj.plants)
 
 
 def shares_line(proj, pl):
